@@ -80,6 +80,11 @@ where
     fn read_from<R: speedy::Reader<'a, C>>(reader: &mut R) -> Result<Self, <C as Context>::Error> {
         u64::read_from(reader).map(Self)
     }
+
+    #[inline]
+    fn minimum_bytes_needed() -> usize {
+        std::mem::size_of::<u64>()
+    }
 }
 
 impl<C> Writable<C> for CrsqlDbVersion
@@ -164,6 +169,11 @@ where
 {
     fn read_from<R: speedy::Reader<'a, C>>(reader: &mut R) -> Result<Self, <C as Context>::Error> {
         u64::read_from(reader).map(Self)
+    }
+
+    #[inline]
+    fn minimum_bytes_needed() -> usize {
+        std::mem::size_of::<u64>()
     }
 }
 
